@@ -249,7 +249,13 @@ class FilesystemOnionService(object):
             # released?!
             uploaded[0] = _await_descriptor_upload(config.tor_protocol, fhs, progress, await_all_uploads)
 
-        yield config.save()
+        try:
+            yield config.save()
+        except Exception:
+            # no service: abandon the wait, which removes its HS_DESC listener
+            uploaded[0].addErrback(lambda f: None)
+            uploaded[0].cancel()
+            raise
         yield uploaded[0]
         return fhs
 
@@ -540,7 +546,6 @@ def _add_ephemeral_service(config, onion, progress, version, auth=None, await_al
     # we have to keep this as a Deferred for now so that HS_DESC
     # listener gets added before we issue ADD_ONION
     assert version in (2, 3)
-    uploaded_d = _await_descriptor_upload(config.tor_protocol, onion, progress, await_all_uploads)
 
     # we allow a key to be passed that *doestn'* start with
     # "RSA1024:" because having to escape the ":" for endpoint
@@ -604,7 +609,16 @@ def _add_ephemeral_service(config, onion, progress, version, auth=None, await_al
                 cmd += ' ClientAuth={}:{}'.format(client_name, keyblob)
                 onion._add_client(client_name, keyblob)
 
-    raw_res = yield config.tor_protocol.queue_command(cmd)
+    # the HS_DESC listener is installed (synchronously) before
+    # ADD_ONION is queued
+    uploaded_d = _await_descriptor_upload(config.tor_protocol, onion, progress, await_all_uploads)
+    try:
+        raw_res = yield config.tor_protocol.queue_command(cmd)
+    except Exception:
+        # no service: abandon the wait, which removes its HS_DESC listener
+        uploaded_d.addErrback(lambda f: None)
+        uploaded_d.cancel()
+        raise
     res = find_keywords(raw_res.split('\n'))
     try:
         onion._hostname = res['ServiceID'] + '.onion'
@@ -1169,7 +1183,13 @@ class FilesystemAuthenticatedOnionService(object):
             # released?!
             uploaded[0] = _await_descriptor_upload(config.tor_protocol, fhs, progress, await_all_uploads)
 
-        yield config.save()
+        try:
+            yield config.save()
+        except Exception:
+            # no service: abandon the wait, which removes its HS_DESC listener
+            uploaded[0].addErrback(lambda f: None)
+            uploaded[0].cancel()
+            raise
         yield uploaded[0]
         return fhs
 
